@@ -30,7 +30,7 @@ CHECKS = {
         "Pin object (results must be identical) and compares get_output, every row of get_full_output, get_data (T, Amplitude), get_A "
         "and get_T in amplitude and power mode with the model. dB = 10 log10 T and phase = arg A are real-analytic: tied by interval "
         "arithmetic in the same run."
-        " The full sweep table get_full_data (what export writes) is read too, with sweeps that start at a symmetric point; dark pin pairs (T = 0, dB = -inf) are included; dB and phase are tied by one generated interval lemma per sample.",
+        " The full sweep table get_full_data (what export writes) is read too, with sweeps that start at a symmetric point; dark pin pairs (T = 0, dB = -inf) are included; dB and phase are tied by one generated interval lemma per sample. The solved model carries a swept and a length-1 parameter; the parameter columns of every table are checked (broadcast), also after the caller has overwritten the arrays it passed in.",
    note="Trusted: Coq kernel + vm_compute; Bignums primitives for the executed instance; model Readout.v tied by sampled correspondence; "
         "pandas exercised, not verified; for dB/phase the Coq.Reals axioms and Interval. Follows the fixed code (F19).",
    technique="Coq proof (linearity/definitional laws) + vm_compute correspondence; interval lemmas for dB and phase", design="§5 C15"),
@@ -45,7 +45,7 @@ CHECKS = {
         "of exposed pins with complex amplitudes in amplitude and power mode, compares the matrix and the SET of columns with the model; "
         "two further streams declare the monitors only after an earlier solve and re-read a result's monitor table after later solves "
         "with another parameter value."
-        " Further streams: multi-mode circuits (expanded blocks wired by connect_all, one column pair per (pin, mode)) and pins exposed under two names with the excitation given through either.",
+        " Further streams: multi-mode circuits (expanded blocks wired by connect_all, one column pair per (pin, mode)) and pins exposed under two names with the excitation given through either. A sweep stream sweeps a phase shifter inside the circuit (second parameter scalar / length-1): row k of the monitor table and slice k of the external matrix against the model of point k, parameter columns included.",
    note="Trusted: Coq kernel + vm_compute; Bignums primitives for the executed instance; model Monitor.v tied by sampled correspondence; "
         "harness. Sweeps of monitored circuits reduce to the per-point statement (C04). Follows the fixed code (F25, F07).",
    technique="Coq proof (uniqueness of interface waves; two-group hierarchy) + vm_compute correspondence incl. late monitors and re-reads", design="§5 C10"),
@@ -72,7 +72,7 @@ CHECKS = {
         "probe/spy leaves are swept over random mixes of scalar / length-1 / length-n values and malformed mixes, every sweep index compared "
         "with the model; (ii) EVERY bare library block (also inside a solver, and mode-expanded) is swept over each of its parameters and "
         "must equal bit-for-bit the stack of its scalar solves."
-        " Block table extended with UserWaveguide variants whose modes have different key sets, FPRGaussian with a callable slab index, and fine sweeps (values a few ppm apart, exact repeats).",
+        " Block table extended with UserWaveguide variants whose modes have different key sets, FPRGaussian with a callable slab index, and fine sweeps (values a few ppm apart, exact repeats). A third stream assigns SEVERAL parameters of every bare block at once (its own and ones it ignores) as scalar / length-1 / length-n mixes incl. inconsistent lengths; the model broadcasts and looks each point up in the table of /repo's scalar solves.",
    note="Trusted: Coq kernel + vm_compute; models Sweep.v/Params.v tied by sampled correspondence; for the block half the scalar solve of "
         "/repo is the oracle (its physics is C09's subject). Names re-defined by add_param at the solved level are not swept (they are no "
         "longer parameters). Follows the fixed code (F02, F27).",
@@ -88,7 +88,7 @@ CHECKS = {
         "readings with the model's history-free value (spy leaves reveal every key they receive), and compares a fingerprint of every "
         "solver's structures, connections, exposed pins, renamings and defaults around each call. Monitor read-outs of earlier results are "
         "re-read in the C10 check."
-        " The histories include twins and replaced defaults; a further stream re-reads an earlier result's monitor read-out after the solver was solved again.",
+        " The histories include twins and replaced defaults; a further stream re-reads an earlier result's monitor read-out after the solver was solved again. A third stream builds the same circuit again from fresh objects AFTER earlier solves (incl. blocks created without a parameter dictionary) and requires the model's answer for the defaults.",
    note="Trusted: Coq kernel + vm_compute; model Params.v tied by sampled correspondence; harness. The immutability of returned objects "
         "is an observation over the histories run, not a theorem. Follows the fixed code (F05).",
    technique="Coq theorems (history-freedom of the retained state) + vm_compute correspondence over solve histories with results kept alive", design="§5 C06"),
@@ -102,11 +102,11 @@ CHECKS = {
         "as-found sequential loop is formally refuted (rename_asfound_refuted, swap witness = finding F03). The tie builds hierarchies of "
         "solvers whose leaves are probes (transmission = parameter value), random injective renamings incl. swaps/chains in every "
         "listing order, defaults at all levels before/after add_param, explicit values, and compares the value each leaf used."
-        " A second stream places the SAME model / solver object twice under different renamings and replaces the defaults after add_param (set_default_params), so that the definition defaults are reached.",
+        " A second stream places the SAME model / solver object twice under different renamings and replaces the defaults after add_param (set_default_params), so that the definition defaults are reached. On every run harness/translate_params.py also translates the CURRENT source of Structure.update_params, Model.update_params, Solver.update_params, Solver.add_param and the default collection of Solver.add_structure to Gallina (symbolic execution over the ast, fail-closed) and coq/templates/ParamsSrcProof.v proves each equal, under every name and for all dictionaries with distinct keys, to rename_shield / model_update / solver_update / the node_defaults step / collect_defaults (5 theorems, closed). Streams now include add_param by introspection, several definitions per solver and constant (argument-less) functions (found F30).",
    note="Trusted: Coq kernel + vm_compute; model Params.v (incl. the recursive delivery through hierarchies, which is modelled and tied "
         "by correspondence; the declarative 'resolve' specification for whole hierarchies is not separately proved); harness. Follows the "
         "fixed code (F03, F04).",
-   technique="Coq proof (renaming/precedence laws for all dictionaries) + vm_compute correspondence on probe hierarchies", design="§5 C05"),
+   technique="Coq proof (renaming/precedence laws for all dictionaries) + source-to-Gallina translation of the five dictionary routines proved equal to the model on every run + vm_compute correspondence on probe hierarchies", design="§5 C05, §3.3"),
  "C12": dict(
    text="Proof: props/C12.v. For every graph of structures (trees, cycles, multiply linked pairs, isolated structures) and every "
         "declaration order, the model of split()'s incremental union returns pairwise disjoint sets that cover exactly the structures "
@@ -115,7 +115,7 @@ CHECKS = {
         "any schedule, has for the pins it owns the coefficients of the original solver (split_behaves). Closed under the global context. "
         "The tie runs split() of /repo on random graphs incl. cycles, stars whose hub is declared last, multi-links and isolated "
         "structures, compares the partition as a set of sets and each returned solver's matrix with the model's solve of that part."
-        " Further streams: split() after a structure was cut, added again and wired elsewhere; parametric parts whose FIRST solve is argument-less, with defaults changed after add_param. split() is also taken after remove_structure.",
+        " Further streams: split() after a structure was cut, added again and wired elsewhere; parametric parts whose FIRST solve is argument-less, with defaults changed after add_param. split() is also taken after remove_structure. Two refused links (occupied pin; structure outside the solver) are attempted right before split().",
    note="Trusted: Coq kernel + vm_compute; Bignums primitives for the executed instance; model Split.v tied by sampled correspondence; "
         "harness. Follows the fixed code (F15). The 'defaults are handed over' half is checked in the C05/C06 parameter streams.",
    technique="Coq proof (loop invariant, all graphs and orders) + vm_compute correspondence of partitions and part matrices", design="§5 C12"),
@@ -131,7 +131,7 @@ CHECKS = {
         "overlapping mode lists; sub-solvers exposing Pin(base, mode)) through connect_all and compares with the model's solve of the "
         "multi-mode netlist AND with independent per-mode solves and zero cross-mode coefficients; runs the queries on models, results, "
         "structures and placed sub-solvers."
-        " The expansion stream includes blocks that refill one persistent buffer (CWA, FPR). Nested solvers and queries also use mode-major pin layouts (a_TE, b_TE, a_TM, b_TM).",
+        " The expansion stream includes blocks that refill one persistent buffer (CWA, FPR). Nested solvers and queries also use mode-major pin layouts (a_TE, b_TE, a_TM, b_TM). The expansion stream covers EVERY library block (constructors of the C04 table; found F31).",
    note="Trusted: Coq kernel + vm_compute; Bignums primitives for the executed instance; model Modes.v tied by sampled correspondence; "
         "harness. The circuit-level statement is proved for circuits whose blocks all carry the same mode list (every link replicated per "
         "mode); partially overlapping mode lists are covered by the per-mode comparison in Coq (tie), not by a theorem. Follows the fixed code (F17, F18). Expansion of an "
@@ -175,7 +175,7 @@ CHECKS = {
         "the global context. The tie executes random such programs on /repo with every module-level helper (put, putpin, Pin.put, "
         "connect, connect_all, raise_pins, add_param, set/update_default_params, add_structure_to_monitors, solve) and compares the kind "
         "of exit, lekkersim.sol_list afterwards and, for each helper call, which solver actually changed."
-        " All solvers of a program share one parameter name, so a helper that touches an enclosing solver's entry is seen. Programs also call Structure.raise_pins on placed models and placed sub-solvers; all solvers of a program own one common parameter name so that a helper reaching a wrong solver is visible.",
+        " All solvers of a program share one parameter name, so a helper that touches an enclosing solver's entry is seen. Programs also call Structure.raise_pins on placed models and placed sub-solvers; all solvers of a program own one common parameter name so that a helper reaching a wrong solver is visible. put is also exercised with a source pin and a target (Model.put and Solver.put by name); a stray lk.connect on an enclosing solver's free pins must be refused and change no solver.",
    note="Trusted: Coq kernel + vm_compute; CPython's with/try semantics as modelled; model Stack.v tied by sampled correspondence; harness "
         "(the changed solver is detected by fingerprinting all solvers before/after each helper).",
    technique="Coq proof by induction over programs + vm_compute correspondence of executed with-block programs", design="§5 C17"),
@@ -190,7 +190,7 @@ CHECKS = {
         "exactly and each once the unconnected pins of the present structures (free_pins_exact: pins freed by a cut are free again, pins "
         "facing a removed structure are gone, a re-added structure brings its pins back). The tie replays random histories, hub histories "
         "(cut/remove of a structure with >=2 neighbours, bypass, re-add), prune with empty models, shared pin names and re-mapped names "
-        "on /repo and compares after EVERY call the observable state and at every solve the matrix with the model.",
+        "on /repo and compares after EVERY call the observable state and at every solve the matrix with the model. Further: multi-link histories (two non-consecutive links to one neighbour, the neighbour removed, the structure cut / removed / re-added) and structures that are placed sub-solvers (25-40 % of the components).",
    note="Trusted: Coq kernel + vm_compute; Bignums primitives for the executed instance; model Wiring.v tied by sampled correspondence; harness. "
         "The model follows the fixed code (F08, F09, F10 in known_findings.json).",
    technique="Coq proof (representation invariant preserved by every operation, induction over histories) + vm_compute state-by-state correspondence", design="§5 C07, §8"),
@@ -202,7 +202,7 @@ CHECKS = {
         "same printable name make the name table refuse (for all pin lists); an accepted table resolves every name to exactly its pin; renamed "
         "pins are addressable by the new names. The tie replays histories with 30 % invalid calls by Pin object and by name on /repo, "
         "comparing ok/error and the observable state after every call and the final solve, and random pin-name tables with renamings "
-        "(swaps, chains, collisions) through Model.pin / Structure.pin. Renamings include ascending renumberings and swaps, after which every renamed pin must still address its own port; solver parameter defaults are part of the atomicity observation (a rejected add must not reset them).",
+        "(swaps, chains, collisions) through Model.pin / Structure.pin. Renamings include ascending renumberings and swaps, after which every renamed pin must still address its own port; solver parameter defaults are part of the atomicity observation (a rejected add must not reset them). Model.put is addressed by Pin OBJECTS: own pins and foreign pins that merely print like an own pin; accepted iff the object is one of the model's pins (decided in Coq by pin_eqb), a refusal leaves the link tables untouched.",
    note="Trusted: Coq kernel + vm_compute; models Wiring.v/Names.v tied by sampled correspondence; harness. Follows the fixed code (F01, F10, F11, F26).",
    technique="Coq proof (invariant + atomicity for all histories; name tables for all pin lists) + vm_compute correspondence of histories with invalid calls", design="§5 C16, §8"),
  "C20": dict(
@@ -226,7 +226,7 @@ CHECKS = {
         "pins raised (bare_equals_wrapped). Closed under the global context. The tie builds nested Solvers in /repo (shared sub-solvers "
         "placed several times, partial exposure, and a stream that edits a shared sub-solver between two solves of the parent) and "
         "compares the observed top-level matrix with both the nested model and the flat model."
-        " Further streams: sub-solvers built with hand-named plus auto-raised pins (pin names shared between structures), and a placed sub-solver that exposes one more pin afterwards (the parent must answer as before).",
+        " Further streams: sub-solvers built with hand-named plus auto-raised pins (pin names shared between structures), and a placed sub-solver that exposes one more pin afterwards (the parent must answer as before). Sub-solvers may expose their pins under names that are a cyclic shift of the inner pin names, and may be wired at placement by name (SUB.put(name, (structure, pin))).",
    note="Trusted: Coq kernel + vm_compute; Bignums primitives for the executed instance; model tied by sampled correspondence; harness "
         "(resolution of pin names to leaf pins is done by the harness; name handling is C16's subject). Conditional on the model returning Ok.",
    technique="Coq proof (induction over arbitrary nesting) + vm_compute correspondence nested-vs-flat-vs-implementation", design="§5 C02"),
@@ -236,7 +236,7 @@ CHECKS = {
         "lossless premise); all reciprocal => the result is symmetric. Proved at network level (a flux that cancels over each connection "
         "and has a sign over each component) and transferred to the solved matrix via solve_sound + solve_complete. Closed under the global "
         "context. The tie runs /repo on circuits of exactly unitary (Cayley transform), contractive and symmetric rational components and "
-        "lets Coq check, in exact arithmetic, agreement with the model AND T^H T = I / T = T^T / |Tu|^2 <= |u|^2 on the observed matrices.",
+        "lets Coq check, in exact arithmetic, agreement with the model AND T^H T = I / T = T^T / |Tu|^2 <= |u|^2 on the observed matrices. 30 % of the circuits declare a random subset (>= 2 structures where possible) as monitors before solving.",
    note="Trusted: Coq kernel + vm_compute; Bignums primitives for the executed instance; model tied by sampled correspondence; harness. "
         "Conditional on the model returning Ok. /repo receives the binary64 roundings of the exact rational components.",
    technique="Coq proof (network-level flux balance, all circuits) + vm_compute correspondence and oracle checks on observed matrices", design="§5 C08"),
@@ -258,7 +258,7 @@ CHECKS = {
         "the global context. The same definitions run under vm_compute against Solver.solve of /repo on random reflective, "
         "non-reciprocal, lossy, multi-link, partially exposed circuits built through the public API in both styles, with scrambled pin "
         "index maps; Coq compares every coefficient between exposed pins within 1e-9."
-        " The streams also map an external name twice (the last mapping counts) and link one pair of structures by 2-4 links in permuted pin order. Components are Models or bare Structures carrying their own matrix.",
+        " The streams also map an external name twice (the last mapping counts) and link one pair of structures by 2-4 links in permuted pin order. Components are Models or bare Structures carrying their own matrix. Malformed netlists also give an occupied pin a second link (both building styles); placements may wire at once through Model.put(pin, (structure, pin)) with pins by name or as Pin objects.",
    note="Trusted: Coq kernel + vm_compute; Bignums/Uint63 primitives for the executed instance only; hand-written model tied by sampled "
         "correspondence; harness. Theorems conditional on the model returning Ok (all inner systems met by the schedule invertible). "
         "The model follows the fixed code (F01: self-connections are rejected).",
@@ -270,11 +270,11 @@ CHECKS = {
         "dimensions, is slice-wise when batched, and that int_complete returns amplitudes satisfying both components' equations. "
         "All closed under the global context. The same Gallina definitions, instantiated with Gaussian rationals (bigQ), are run "
         "by vm_compute against S_matrix.add/int_complete of /repo on generated reflective blocks (incl. zero dimensions, batches, "
-        "broadcast, mismatches); Coq decides agreement within 1e-9 in exact arithmetic. Half of the unbatched cases fill the S_matrix blocks in place after construction (complex dtype of the allocated blocks).",
+        "broadcast, mismatches); Coq decides agreement within 1e-9 in exact arithmetic. Half of the unbatched cases fill the S_matrix blocks in place after construction (complex dtype of the allocated blocks). On every run harness/translate_kernel.py also translates the CURRENT source of S_matrix.__init__/add/int_complete to Gallina (shape inference, fail-closed) and coq/templates/KernelSrcProof.v proves the translated source equal to Kernel.sadd / Kernel.int_complete for all operands (add_src_is_sadd, int_complete_src_is_model; closed under the global context): for the kernel the tie is not only sampled.",
    note="Trusted: Coq kernel + vm_compute; Bignums/Uint63 primitives (only for the executed instance BQCf, not for the theorems); "
         "hand-written model tied by sampled correspondence; harness (generators, float->dyadic transport, emitter, parser). "
         "Theorems are conditional on the model returning Ok (inner systems invertible). numpy is exercised, not verified.",
-   technique="Coq proof (generic field) + vm_compute correspondence vs implementation", design="§5 C18"),
+   technique="Coq proof (generic field) + source-to-Gallina translation of the kernel proved equal to the model on every run + vm_compute correspondence vs implementation", design="§5 C18, §3.3"),
 }
 
 def main():
